@@ -832,6 +832,10 @@ where
             break;
         }
         if let Some((fid, t)) = locked.pop_front() {
+            // wait_all may have given away every token, including our own.
+            // We hold no lock at this point, so it is safe to wait for one;
+            // everything below (release_mine, starting a job) needs it.
+            server.ensure_token_or_cheat(t.as_str(), &mut cheat).await?;
             // TODO(soon): check_sane
             let mut lock = ps_ref.borrow().new_lock(fid);
             let mut backoff = Duration::from_millis(100);
